@@ -167,17 +167,12 @@ func (m *Model) applyContracts(o Op, pr *Pred) (string, bool) {
 	c := m.Ctr
 	key := fmt.Sprintf("%d/%s", o.A, o.S)
 	cur := c.get(o.A, o.S)
-	mutator := o.K == "ct.add" || o.K == "ct.update" || o.K == "ct.tryUpdate" || o.K == "ct.remove"
-	if mutator {
-		if c.Touched[key] {
-			panic("harness: two lifecycle mutators on " + key + " in one transaction are not modelled")
-		}
-		c.Touched[key] = true
-	}
+	// Touched[key]: the contract was removed (or added and removed) earlier in this transaction. The language reference:
+	// "a contract cannot be removed and added again (redeployed) in the same transaction".
 	validProgram := o.M == "ok" || o.M == "enum" || o.M == "incompat"
 	switch o.K {
 	case "ct.add":
-		if cur != nil {
+		if cur != nil || c.Touched[key] {
 			return FCtExists, true
 		}
 		if !validProgram {
@@ -231,6 +226,7 @@ func (m *Model) applyContracts(o Op, pr *Pred) (string, bool) {
 		pr.obs("rem", fmt.Sprintf("%q", o.S))
 		pr.Events = append(pr.Events, ctEvent("Removed", o.A, o.S, ctSource(o.S, cur.Ver, cur.Variant)))
 		delete(c.Accts[o.A], o.S)
+		c.Touched[key] = true
 	case "ct.get":
 		if cur == nil {
 			pr.obs("get", "nil")
@@ -285,7 +281,8 @@ func (g *Gen) contractOp() Op {
 	key := fmt.Sprintf("%d/%s", a, name)
 	g.nonce++
 	ver := g.nonce
-	if !g.M.Ctr.Touched[key] && g.R.Chance(0.55) {
+	_ = key
+	if g.R.Chance(0.55) {
 		variant := "ok"
 		switch {
 		case g.R.Chance(0.15):
@@ -301,6 +298,14 @@ func (g *Gen) contractOp() Op {
 			variant = "enum"
 		}
 		switch {
+		case cur == nil && g.M.Ctr.Touched[key]:
+			return Op{K: "ct.add", A: a, S: name, I: ver, M: "ok", Edge: true}
+		case cur != nil && cur.Fresh && g.R.Chance(0.5):
+			// remove (or update) a contract deployed earlier in this same transaction
+			if g.R.Chance(0.6) {
+				return Op{K: "ct.remove", A: a, S: name, Edge: cur.Variant == "enum"}
+			}
+			return Op{K: "ct.update", A: a, S: name, I: ver, M: cur.Variant}
 		case cur == nil && g.R.Chance(0.85):
 			return Op{K: "ct.add", A: a, S: name, I: ver, M: variant, Edge: variant != "ok" && variant != "enum"}
 		case cur != nil && g.R.Chance(0.2):
